@@ -436,14 +436,16 @@ Inductive pc :=
 
 Record thread := mkT { t_ops : list op; t_pc : pc; t_res : list res (* newest first *) }.
 
-Record cst := mkC {
+(** shared state *)
+Record shared := mkSh {
   g_store : list key;
   g_cache : list (key * entry);
   g_filt : N;                     (* the live filter *)
   g_gen : nat;                    (* which filter object is live (bumped by Rebuild's swap) *)
-  g_active : bool;
-  g_thr : list (tid * thread)
+  g_active : bool
 }.
+
+Record cst := mkC { g_sh : shared; g_thr : list (tid * thread) }.
 
 Definition idle_thread : thread := mkT [] PIdle [].
 Definition tget (s : cst) (t : tid) : thread :=
@@ -478,12 +480,6 @@ Definition in_put_window (p : pc) : bool :=
   | _ => false
   end.
 
-Section Lts.
-Variable cf : cfg.
-Variable fl : flags.
-Variable pos : key -> N.
-Variable sz : key -> Z.
-
 Definition conflicts (k : key) (w : bool) (h : key * bool) : bool :=
   (fst h =? k) && (w || snd h).
 
@@ -497,19 +493,21 @@ Definition mu_free (s : cst) (t : tid) : bool :=
 Definition no_put_window (s : cst) (t : tid) : bool :=
   forallb (fun t' => (t' =? t) || negb (in_put_window (t_pc (tget s t')))) (tids s).
 
-Definition set_thr (s : cst) (t : tid) (x : thread) : cst :=
-  mkC (g_store s) (g_cache s) (g_filt s) (g_gen s) (g_active s) (cset t x (g_thr s)).
-Definition set_pc (s : cst) (t : tid) (p : pc) : cst :=
-  let th := tget s t in set_thr s t (mkT (t_ops th) p (t_res th)).
+Definition setpc (th : thread) (p : pc) : thread := mkT (t_ops th) p (t_res th).
 (** the current call returns [r] *)
-Definition finish (s : cst) (t : tid) (r : res) : cst :=
-  let th := tget s t in set_thr s t (mkT (t_ops th) PIdle (r :: t_res th)).
+Definition fin (th : thread) (r : res) : thread := mkT (t_ops th) PIdle (r :: t_res th).
 
-Definition set_store (s : cst) x := mkC x (g_cache s) (g_filt s) (g_gen s) (g_active s) (g_thr s).
-Definition set_cache (s : cst) c := mkC (g_store s) c (g_filt s) (g_gen s) (g_active s) (g_thr s).
-Definition set_filt (s : cst) f := mkC (g_store s) (g_cache s) f (g_gen s) (g_active s) (g_thr s).
-Definition set_active (s : cst) a := mkC (g_store s) (g_cache s) (g_filt s) (g_gen s) a (g_thr s).
-Definition swap_filter (s : cst) := mkC (g_store s) (g_cache s) 0%N (S (g_gen s)) (g_active s) (g_thr s).
+Definition sh_store (h : shared) x := mkSh x (g_cache h) (g_filt h) (g_gen h) (g_active h).
+Definition sh_cache (h : shared) c := mkSh (g_store h) c (g_filt h) (g_gen h) (g_active h).
+Definition sh_filt (h : shared) f := mkSh (g_store h) (g_cache h) f (g_gen h) (g_active h).
+Definition sh_active (h : shared) a := mkSh (g_store h) (g_cache h) (g_filt h) (g_gen h) a.
+Definition sh_swap (h : shared) := mkSh (g_store h) (g_cache h) 0%N (S (g_gen h)) (g_active h).
+
+Section Lts.
+Variable cf : cfg.
+Variable fl : flags.
+Variable pos : key -> N.
+Variable sz : key -> Z.
 
 Definition sk_missing (a : sk) : res :=
   match a with SKRead rk => missing_res rk | _ => ROk end.
@@ -524,11 +522,15 @@ Definition enter (a : sk) (k : key) : pc :=
   end.
 
 (** the inner (2Q + store) part of a single-key call returned [r] *)
-Definition after_inner (s : cst) (t : tid) (a : sk) (k : key) (r : res) : cst :=
+Definition after_inner (th : thread) (a : sk) (k : key) (r : res) : thread :=
   match a, r with
-  | SKPut _, ROk => if c_bloom cf then set_pc s t (BLoad k) else finish s t r
-  | _, _ => finish s t r
+  | SKPut _, ROk => if c_bloom cf then setpc th (BLoad k) else fin th r
+  | _, _ => fin th r
   end.
+
+(** after a successful PutMany of the inner layers *)
+Definition after_many (th : thread) (ks : list key) : thread :=
+  if c_bloom cf then setpc th (MLoad ks) else fin th ROk.
 
 (** result of a single-key call from the store outcome *)
 Definition sk_res (a : sk) (k : key) (o : bool) : res :=
@@ -561,7 +563,7 @@ Definition sk_store (a : sk) (k : key) (store : list key) : list key * bool :=
   | SKDel fault => if negb (mem k store) then (store, true) else if fault then (store, false) else (remove k store, true)
   end.
 
-Definition start_op (s : cst) (t : tid) (o : op) : pc :=
+Definition start_op (o : op) : pc :=
   match o with
   | ORead rk k => enter (SKRead rk) k
   | OPut k f => enter (SKPut f) k
@@ -571,112 +573,120 @@ Definition start_op (s : cst) (t : tid) (o : op) : pc :=
   | ORebuildCancelled | OActive => PIdle
   end.
 
-(** one step of thread [t]; [None] = not enabled (blocked, or nothing to do) *)
-Definition tstep (s : cst) (t : tid) : option cst :=
-  let th := tget s t in
+Definition add_if_live (h : shared) (k : key) (g : nat) : shared :=
+  if g =? g_gen h then sh_filt h (N.lor (pos k) (g_filt h)) else h.
+
+(** one step of thread [t], whose local state is [th]: the new shared state and
+    the new local state; [None] = not enabled (blocked, or nothing to do).
+    The other threads matter only through the three guards. *)
+Definition tstep1 (s : cst) (t : tid) (th : thread) : option (shared * thread) :=
+  let h := g_sh s in
   match t_pc th with
   | PIdle =>
       match t_ops th with
       | [] => None
-      | ORebuildCancelled :: r => Some (set_thr s t (mkT r PIdle (RErr :: t_res th)))
-      | OActive :: r => Some (set_thr s t (mkT r PIdle (RBool (c_bloom cf && g_active s) :: t_res th)))
-      | o :: r => Some (set_thr s t (mkT r (start_op s t o) (t_res th)))
+      | ORebuildCancelled :: r => Some (h, mkT r PIdle (RErr :: t_res th))
+      | OActive :: r => Some (h, mkT r PIdle (RBool (c_bloom cf && g_active h) :: t_res th))
+      | o :: r => Some (h, mkT r (start_op o) (t_res th))
       end
   | BActive a k =>
-      if g_active s then
-        if d_toctou fl then Some (set_pc s t (BFilter a k))
-        else if bsub (pos k) (g_filt s) then Some (set_pc s t (enter_inner a k))
-             else Some (finish s t (sk_missing a))
-      else Some (set_pc s t (enter_inner a k))
+      if g_active h then
+        if d_toctou fl then Some (h, setpc th (BFilter a k))
+        else if bsub (pos k) (g_filt h) then Some (h, setpc th (enter_inner a k))
+             else Some (h, fin th (sk_missing a))
+      else Some (h, setpc th (enter_inner a k))
   | BFilter a k =>
-      if bsub (pos k) (g_filt s) then Some (set_pc s t (enter_inner a k))
-      else Some (finish s t (sk_missing a))
+      if bsub (pos k) (g_filt h) then Some (h, setpc th (enter_inner a k))
+      else Some (h, fin th (sk_missing a))
   | TQuery a k =>
-      match match lookup k (g_cache s) with Some e => sk_conclude a k e | None => None end with
-      | Some r => Some (after_inner s t a k r)
-      | None => Some (set_pc s t (TLock a k))
+      match match lookup k (g_cache h) with Some e => sk_conclude a k e | None => None end with
+      | Some r => Some (h, after_inner th a k r)
+      | None => Some (h, setpc th (TLock a k))
       end
   | TLock a k =>
-      if can_lock s t k (is_write a) then Some (set_pc s t (SPre a k)) else None
+      if can_lock s t k (is_write a) then Some (h, setpc th (SPre a k)) else None
   | SPre a k =>
-      let (x, o) := sk_store a k (g_store s) in
-      Some (set_pc (set_store s x) t (SPost a k o))
+      let (x, o) := sk_store a k (g_store h) in
+      Some (sh_store h x, setpc th (SPost a k o))
   | SPost a k o =>
-      if c_tq cf then Some (set_pc s t (TUpd a k o))
-      else Some (after_inner s t a k (sk_res a k o))
+      if c_tq cf then Some (h, setpc th (TUpd a k o))
+      else Some (h, after_inner th a k (sk_res a k o))
   | TUpd a k o =>
-      Some (set_pc (set_cache s (sk_upd a k o (g_cache s))) t (TUnlock a k (sk_res a k o)))
-  | TUnlock a k r => Some (after_inner s t a k r)
-  | BLoad k => Some (set_pc s t (BAdd k (g_gen s)))
-  | BAdd k g =>
-      Some (finish (if g =? g_gen s then set_filt s (N.lor (pos k) (g_filt s)) else s) t ROk)
+      Some (sh_cache h (sk_upd a k o (g_cache h)), setpc th (TUnlock a k (sk_res a k o)))
+  | TUnlock a k r => Some (h, after_inner th a k r)
+  | BLoad k => Some (h, setpc th (BAdd k (g_gen h)))
+  | BAdd k g => Some (add_if_live h k g, fin th ROk)
   (* ---- PutMany ---- *)
   | MQuery ks f todo good =>
       match todo with
       | k :: r =>
-          let fwd := match lookup k (g_cache s) with Some e => negb (ehas e) | None => true end in
-          Some (set_pc s t (MQuery ks f r (if fwd then good ++ [k] else good)))
+          let fwd := match lookup k (g_cache h) with Some e => negb (ehas e) | None => true end in
+          Some (h, setpc th (MQuery ks f r (if fwd then good ++ [k] else good)))
       | [] =>
           match sort_dedup good with
-          | [] => if c_bloom cf then Some (set_pc s t (MLoad ks)) else Some (finish s t ROk)
-          | g' => Some (set_pc s t (MLock ks f [] g'))
+          | [] => Some (h, after_many th ks)
+          | g' => Some (h, setpc th (MLock ks f [] g'))
           end
       end
   | MLock ks f locked todo =>
       match todo with
-      | k :: r => if can_lock s t k true then Some (set_pc s t (MLock ks f (locked ++ [k]) r)) else None
-      | [] => Some (set_pc s t (MSPre ks f locked))
+      | k :: r => if can_lock s t k true then Some (h, setpc th (MLock ks f (locked ++ [k]) r)) else None
+      | [] => Some (h, setpc th (MSPre ks f locked))
       end
   | MSPre ks f good =>
-      if forallb (fun k => mem k (g_store s)) good then Some (set_pc s t (MSPost ks good true))
-      else if f then Some (set_pc s t (MSPost ks good false))
-      else Some (set_pc (set_store s (fold_left (fun x k => insert k x) good (g_store s))) t (MSPost ks good true))
+      if forallb (fun k => mem k (g_store h)) good then Some (h, setpc th (MSPost ks good true))
+      else if f then Some (h, setpc th (MSPost ks good false))
+      else Some (sh_store h (fold_left (fun x k => insert k x) good (g_store h)), setpc th (MSPost ks good true))
   | MSPost ks good o =>
       if c_tq cf then
-        (if o then Some (set_pc s t (MUpd ks good good)) else Some (set_pc s t (MUnlock ks good RErr)))
-      else if o then (if c_bloom cf then Some (set_pc s t (MLoad ks)) else Some (finish s t ROk))
-           else Some (finish s t RErr)
+        (if o then Some (h, setpc th (MUpd ks good good)) else Some (h, setpc th (MUnlock ks good RErr)))
+      else if o then Some (h, after_many th ks) else Some (h, fin th RErr)
   | MUpd ks good todo =>
       match todo with
-      | k :: r => Some (set_pc (set_cache s (cset k (CSize (sz k)) (g_cache s))) t (MUpd ks good r))
-      | [] => Some (set_pc s t (MUnlock ks good ROk))
+      | k :: r => Some (sh_cache h (cset k (CSize (sz k)) (g_cache h)), setpc th (MUpd ks good r))
+      | [] => Some (h, setpc th (MUnlock ks good ROk))
       end
   | MUnlock ks todo r =>
       match todo with
-      | _ :: rest => Some (set_pc s t (MUnlock ks rest r))
+      | _ :: rest => Some (h, setpc th (MUnlock ks rest r))
       | [] => match r with
-              | ROk => if c_bloom cf then Some (set_pc s t (MLoad ks)) else Some (finish s t ROk)
-              | _ => Some (finish s t r)
+              | ROk => Some (h, after_many th ks)
+              | _ => Some (h, fin th r)
               end
       end
   | MLoad todo =>
       match todo with
-      | k :: r => Some (set_pc s t (MAdd r k (g_gen s)))
-      | [] => Some (finish s t ROk)
+      | k :: r => Some (h, setpc th (MAdd r k (g_gen h)))
+      | [] => Some (h, fin th ROk)
       end
-  | MAdd todo k g =>
-      Some (set_pc (if g =? g_gen s then set_filt s (N.lor (pos k) (g_filt s)) else s) t (MLoad todo))
+  | MAdd todo k g => Some (add_if_live h k g, setpc th (MLoad todo))
   (* ---- Rebuild / initial build ---- *)
   | RMu rebuild n c =>
-      if mu_free s t then Some (set_pc s t (if rebuild then RDeact n c else RQPre n c)) else None
-  | RDeact n c => Some (set_pc (set_active s false) t (RSwap n c))
-  | RSwap n c => Some (set_pc (swap_filter s) t (RQPre n c))
-  | RQPre n c => Some (set_pc s t (RQPost n c (g_store s)))
-  | RQPost n c snap => Some (set_pc s t (RNext n c 0 snap))
+      if mu_free s t then Some (h, setpc th (if rebuild then RDeact n c else RQPre n c)) else None
+  | RDeact n c => Some (sh_active h false, setpc th (RSwap n c))
+  | RSwap n c => Some (sh_swap h, setpc th (RQPre n c))
+  | RQPre n c => Some (h, setpc th (RQPost n c (g_store h)))
+  | RQPost n c snap => Some (h, setpc th (RNext n c 0 snap))
   | RNext n c i rem =>
       if i <? n then
         match rem with
-        | k :: r => Some (set_pc (set_filt s (N.lor (pos k) (g_filt s))) t (RNext n c (S i) r))
-        | [] => if c then Some (set_pc s t RActivate) else Some (set_pc s t (RMuUnlock RErr))
+        | k :: r => Some (sh_filt h (N.lor (pos k) (g_filt h)), setpc th (RNext n c (S i) r))
+        | [] => if c then Some (h, setpc th RActivate) else Some (h, setpc th (RMuUnlock RErr))
         end
       else
         match rem with
-        | [] => if c then Some (set_pc s t RActivate) else Some (set_pc s t (RMuUnlock RErr))
-        | _ => Some (set_pc s t (RMuUnlock RErr))
+        | [] => if c then Some (h, setpc th RActivate) else Some (h, setpc th (RMuUnlock RErr))
+        | _ => Some (h, setpc th (RMuUnlock RErr))
         end
   | RActivate =>
-      if d_early fl || no_put_window s t then Some (set_pc (set_active s true) t (RMuUnlock ROk)) else None
-  | RMuUnlock r => Some (finish s t r)
+      if d_early fl || no_put_window s t then Some (sh_active h true, setpc th (RMuUnlock ROk)) else None
+  | RMuUnlock r => Some (h, fin th r)
+  end.
+
+Definition tstep (s : cst) (t : tid) : option cst :=
+  match tstep1 s t (tget s t) with
+  | Some (h, th) => Some (mkC h (cset t th (g_thr s)))
+  | None => None
   end.
 
 (** labels: a thread moves, or the 2Q cache evicts an entry *)
@@ -685,7 +695,7 @@ Inductive label := LThread (t : tid) | LEvict (k : key).
 Definition lstep (s : cst) (l : label) : option cst :=
   match l with
   | LThread t => tstep s t
-  | LEvict k => Some (set_cache s (cdel k (g_cache s)))
+  | LEvict k => Some (mkC (sh_cache (g_sh s) (cdel k (g_cache (g_sh s)))) (g_thr s))
   end.
 
 (** a run along a label sequence ([None] if some step is not enabled) *)
@@ -699,7 +709,7 @@ Fixpoint lrun (s : cst) (ls : list label) : option cst :=
 Definition cinit (keys : list key) (bn : nat) (bc : bool) (progs : list (list op)) : cst :=
   let thr := map (fun p => mkT p PIdle []) progs in
   let thr0 := if c_bloom cf then mkT [] (RMu false bn bc) [] :: thr else thr in
-  mkC (sort_dedup keys) [] 0%N 0 false (combine (seq 0 (length thr0)) thr0).
+  mkC (mkSh (sort_dedup keys) [] 0%N 0 false) (combine (seq 0 (length thr0)) thr0).
 
 End Lts.
 
@@ -715,28 +725,70 @@ Variable sz : key -> Z.
 Definition minimal (a : hop) (l : list hop) : bool :=
   forallb (fun b => negb (h_resp b <? h_inv a)) l.
 
-(** try every pending operation that may go first and whose answer the map gives *)
-Fixpoint lin_search (fuel : nat) (store : list key) (pending : list hop) : bool :=
+(** The map is a product of independent one-key registers (a multi-block PutMany
+    is treated as one Put per key with the same call interval), and
+    linearizability is local (Herlihy & Wing), so the history is decided key by
+    key; the state of one key is one bit. *)
+Definition proj_op (k : key) (o : op) : option op :=
+  match o with
+  | ORead _ k' | OPut k' _ | ODelete k' _ => if k' =? k then Some o else None
+  | OPutMany ks f => if mem k ks then Some (OPut k f) else None
+  | _ => None
+  end.
+
+Definition key_hist (k : key) (h : list hop) : list hop :=
+  flat_map (fun a => match proj_op k (h_op a) with
+                     | Some o => [mkH o (h_res a) (h_inv a) (h_resp a)]
+                     | None => []
+                     end) h.
+
+(** the state of key [k] after operation [a] if the map gives [a]'s answer in state [b] *)
+Definition step_key (k : key) (b : bool) (a : hop) : option bool :=
+  let (store', so) := spec_step sz (if b then [k] else []) (h_op a) in
+  if out_agrees (h_res a) so then Some (mem k store') else None.
+
+(** pick the first pending operation that may go first and satisfies [ok] *)
+Fixpoint pick (ok : hop -> bool) (before after : list hop) : option (list hop) :=
+  match after with
+  | [] => None
+  | a :: r => if minimal a (before ++ r) && ok a then Some (before ++ r) else pick ok (before ++ [a]) r
+  end.
+
+Definition is_read (o : op) : bool := match o with ORead _ _ => true | _ => false end.
+
+(** a read that may go first and is answered correctly in the current state *)
+Definition read_now (k : key) (b : bool) (a : hop) : bool :=
+  is_read (h_op a) && match step_key k b a with Some _ => true | None => false end.
+
+(** A read that may go first and is answered correctly now can always be
+    linearized first (it changes nothing and constrains nobody); otherwise branch
+    over the writes that may go first and are answered correctly. *)
+Fixpoint lin_key (fuel : nat) (k : key) (b : bool) (pending : list hop) : bool :=
   match pending with
   | [] => true
   | _ =>
     match fuel with
     | O => false
     | S f =>
-      (fix try (before after : list hop) : bool :=
-         match after with
-         | [] => false
-         | a :: r =>
-             (minimal a (before ++ r) &&
-              (let (store', so) := spec_step sz store (h_op a) in
-               out_agrees (h_res a) so && lin_search f store' (before ++ r)))
-             || try (before ++ [a]) r
-         end) [] pending
+      match pick (read_now k b) [] pending with
+      | Some rest => lin_key f k b rest
+      | None =>
+        (fix try (before after : list hop) : bool :=
+           match after with
+           | [] => false
+           | a :: r =>
+               (minimal a (before ++ r) && negb (is_read (h_op a)) &&
+                match step_key k b a with Some b' => lin_key f k b' (before ++ r) | None => false end)
+               || try (before ++ [a]) r
+           end) [] pending
+      end
     end
   end.
 
+Definition hist_keys (h : list hop) : list key := nodup_first [] (flat_map (fun a => keys_of (h_op a)) h).
+
 Definition linearizable (init : list key) (h : list hop) : bool :=
-  lin_search (length h) (sort_dedup init) h.
+  forallb (fun k => let hk := key_hist k h in lin_key (length hk) k (mem k init) hk) (hist_keys h).
 End Lin.
 
 (** ================================================================== *)
